@@ -164,7 +164,7 @@ macro_rules! vassume {
 #[macro_export]
 macro_rules! vcover {
     ($s:expr, $cond:expr, $what:literal) => {{
-        #[cfg(kani)]
+        #[cfg(all(kani, not(feature = "nocover")))]
         {
             kani::cover!($cond, $what);
         }
